@@ -13,24 +13,7 @@
 
 use byteordered::Endianness;
 
-fn be32(b: &[u8], o: usize) -> u32 {
-    ((b[o] as u32) << 24) + ((b[o + 1] as u32) << 16) + ((b[o + 2] as u32) << 8) + (b[o + 3] as u32)
-}
-fn le32(b: &[u8], o: usize) -> u32 {
-    (b[o] as u32) + ((b[o + 1] as u32) << 8) + ((b[o + 2] as u32) << 16) + ((b[o + 3] as u32) << 24)
-}
-fn be64(b: &[u8], o: usize) -> u64 {
-    ((be32(b, o) as u64) << 32) + (be32(b, o + 4) as u64)
-}
-fn le64(b: &[u8], o: usize) -> u64 {
-    (le32(b, o) as u64) + ((le32(b, o + 4) as u64) << 32)
-}
-fn d32(big: bool, b: &[u8], o: usize) -> u32 {
-    if big { be32(b, o) } else { le32(b, o) }
-}
-fn d64(big: bool, b: &[u8], o: usize) -> u64 {
-    if big { be64(b, o) } else { le64(b, o) }
-}
+include!("spec.rs");
 
 // L: leaf_next — None iff i >= count; otherwise the six fields are the big-/little-endian
 // decode of bytes[32*i ..] at offsets 0,4,8,12,16,24 and self.i advances by exactly one;
